@@ -17,6 +17,7 @@ def run(ctx):
     U.netloc_template(ctx, "R6")
     U.rule_qsl(ctx, "R7")
     Q.rule_qsl_mappers(ctx, "R7m")
+    U.rule_punycode(ctx, "R6p")
     # the cleaning pass runs on the raw url before parsing: it may only touch valid escapes / control characters
     Q.rule_upper_quoted(ctx, "R8")
     ctx.rule("R9", "the control-character pattern deletes controls only (a printable character deleted before parsing changes the resource)")
